@@ -39,6 +39,7 @@ func (fx *Fx) execFor(st *State, s *ast.ForStmt) {
 		fx.exec(st, s.Init)
 	}
 	fx.loopOrd++
+	fx.maxLoopOrd = max(fx.maxLoopOrd, fx.loopOrd)
 	lp := &loopParts{node: s, label: label, ord: fx.loopOrd, spec: fx.loopSpec(fx.loopOrd), body: s.Body}
 	if s.Cond != nil {
 		lp.condF = func(t *State) string { return fx.eval(t, s.Cond).T }
@@ -60,6 +61,7 @@ func (fx *Fx) execRange(st *State, s *ast.RangeStmt) {
 	label := fx.takeLabel()
 	c := fx.c
 	fx.loopOrd++
+	fx.maxLoopOrd = max(fx.maxLoopOrd, fx.loopOrd)
 	lp := &loopParts{node: s, label: label, ord: fx.loopOrd, spec: fx.loopSpec(fx.loopOrd), body: s.Body}
 	lp.counter = fmt.Sprintf("rk%d", lp.ord)
 	xt := types.Unalias(fx.info.TypeOf(s.X))
@@ -281,6 +283,9 @@ func (fx *Fx) runLoop(st *State, lp *loopParts) {
 		for _, k := range sortedBoolKeys(ms.heaps) {
 			if k == "ONCE" {
 				continue
+			}
+			if (k == "CNT" || k == "CNC" || k == "LV") && (ms.emits || ms.opaque) {
+				continue // havocLog below relates them to their values before the loop
 			}
 			head.havocHeap(k)
 		}
